@@ -187,6 +187,13 @@ def run(ctx):
                 data = open(path, "rb").read()
                 if zc.py_file_hyps(data) and b"PK\x06\x07" not in data and b"PK\x06\x06" not in data:
                     break
+                # structure: save() must write exactly  body ++ 22-byte end record  (hypothesis wf_eocd of the theorem).
+                # A file that does not END with the record is never "bad luck": it is kept and swept.
+                if not (len(data) >= 22 and data[-22:-18] == zc.SIG and data[-2:] == b"\0\0"):
+                    ctx.broken.append(f"{cls}{shape}.save() wrote a file that does not end with the end-of-central-directory "
+                                      f"record (last signature at {data.rfind(zc.SIG)} of {len(data)} bytes): hypothesis wf_eocd "
+                                      f"of C20_prefix_rejected does not hold for it")
+                    break
                 ctx.count("regenerated:not-signature-free")
             else:
                 ctx.notes.append(f"{cls}{shape}: no signature-free file after 5 attempts; skipped")
@@ -209,7 +216,57 @@ def run(ctx):
             files.append(dict(cls=cls, shape=shape, data=data, tag=f"{cls}_{si}", si=si))
             ctx.count("files:" + cls)
             ctx.count("bytes:" + cls, len(data))
-    ctx.tick(f"{len(files)} files saved, checked signature-free, reloaded")
+    # ---- 1b. save over an existing, longer file: the result must be byte-identical to a save to a fresh path
+    for cls, shs in shapes.items():
+        big_shape, small_shape = shs[1], shs[0]
+        path = os.path.join(ctx.dir, f"{cls}_overwrite.npz")
+        fresh = os.path.join(ctx.dir, f"{cls}_fresh.npz")
+        for attempt in range(5):
+            rb = ctx.rng.getrandbits(32)
+            import random as _r
+            build(sk, cls, big_shape, _r.Random(rb)).save(path)
+            small = build(sk, cls, small_shape, _r.Random(rb + 1))
+            small.save(path)                       # overwrite the longer file
+            small.save(fresh)
+            data, want = open(path, "rb").read(), open(fresh, "rb").read()
+            if data != want:
+                ctx.broken.append(f"{cls}: saving {small_shape} over an existing longer file ({big_shape}) leaves {len(data)} bytes, "
+                                  f"a save to a fresh path writes {len(want)}: the file is not body ++ end record")
+                files.append(dict(cls=cls, shape=small_shape, data=data, tag=f"{cls}_overwrite", si=99))
+                break
+            if zc.py_file_hyps(data):
+                break
+        ctx.count("overwrite-scenario")
+    # ---- 1c. one table above 1 MiB (structure of the file + sampled sweep of its prefixes)
+    bigs = cm.CountMinLinear(2**15, 8)
+    for k in _keys(ctx.rng, 20):
+        bigs.add(k, 3)
+    pbig = os.path.join(ctx.dir, "big_linear.npz")
+    bigs.save(pbig)
+    bigdata = open(pbig, "rb").read()
+    os.remove(pbig)
+    if not (bigdata[-22:-18] == zc.SIG and bigdata[-2:] == b"\0\0"):
+        ctx.broken.append(f"CountMinLinear(32768, 8).save() wrote a file that does not end with the end-of-central-directory record "
+                          f"(last signature at {bigdata.rfind(zc.SIG)} of {len(bigdata)} bytes)")
+    big_offsets = sorted(set(range(max(0, len(bigdata) - 4200), len(bigdata))) | set(range(0, len(bigdata), 65521)))
+    with open(sweep_path, "wb") as f:
+        f.write(bigdata)
+    for n in reversed(big_offsets):
+        os.truncate(sweep_path, n)
+        for lname, fn in loaders["CountMinLinear"]:
+            try:
+                obj = fn(sweep_path)
+            except Exception:  # noqa
+                continue
+            if nviol < 3:
+                ctx.violation({"cls": "CountMinLinear", "shape": [32768, 8], "loader": lname, "offset": n, "file_len": len(bigdata),
+                               "tail_hex": bigdata[-4300:].hex()},
+                              f"strict prefix ({n} of {len(bigdata)} bytes) of a 1 MiB CountMinLinear file loads through {lname}")
+            nviol += 1
+        ctx.case_seen(("big", n), True)
+    ctx.count("big-file-prefixes", len(big_offsets))
+    del bigs
+    ctx.tick(f"{len(files)} files saved, checked signature-free, reloaded; overwrite and 1 MiB scenarios")
 
     # ---- 2. the sweep: every strict prefix, truncated in place, through every loader
     exc_hist = {}
